@@ -176,8 +176,20 @@ pub fn repo_sample_count() -> u64 {
 pub fn boundary_dense_stream(r: &mut Rng, max_plain: usize) -> Stream {
     loop {
         let n = 20_000 + r.usize_below(max_plain.max(20_001) - 20_000);
-        let kind = *r.pick(&[0u64, 1, 1, 2, 5, 5, 6]);
-        let p = plain::make_kind(r, kind, n);
+        let kind = *r.pick(&[0u64, 1, 2, 5, 6]);
+        let mut p = plain::make_kind(r, kind, n);
+        // the estimator models a stream as "insert everything + lazy matching" only if it sees a reference
+        // into the interior of a match of 256 bytes or more: plant a long run and shorter runs of the same
+        // byte behind it, so that the lazy-matching paths of the predictor are the ones exercised
+        let b = r.byte();
+        let at = r.usize_below(p.len() / 4 + 1);
+        let long = 600 + r.usize_below(600);
+        p.splice(at..at, std::iter::repeat(b).take(long));
+        for _ in 0..3 + r.usize_below(6) {
+            let at = at + long + r.usize_below(p.len() - at - long + 1);
+            let l = 8 + r.usize_below(200);
+            p.splice(at..at, std::iter::repeat(b).take(l));
+        }
         let level = 4 + r.below(6) as i32;
         let memlevel = 1 + r.below(3) as i32;
         let wbits = if r.chance(3, 4) { 15 } else { 9 + r.below(7) as i32 };
